@@ -14,6 +14,11 @@
 //                                         -> rc=<enum> doc=<dump of the registry's root> links= dirty=<0|1> leak=<0|1>
 //   regs <doc> <steps>                    the same registry and SEVERAL calls: steps = JSON [["m"|"r", path, value?], ...]
 //                                         -> rcs=<rc,rc,...> doc= links= dirty= leak=
+//   idpatch <tn|ta> <doc> <patch>         jbn_patch / jbn_patch_auto with node IDENTITIES: every node of the document and of the patch
+//                                         document is numbered depth first before the call; afterwards the result is walked:
+//                                         -> rc= own=<d<i>|p<j>|n per node, depth first> dup=<0|1> par=<ok|bad>
+//                                         (d = a node of the document, p = of the patch document, n = allocated by the call;
+//                                          dup = some node is listed twice; par = every child's `parent` is the node that lists it)
 // With H_JPATCH_PAR=1 in the environment a tree answer ends in " par=bad" when some child's `parent` pointer is not the node
 // that lists it.
 // Answer: rc=<enum> doc=<canonical dump> [kl=<cached indices of array items, dfs>] [links=ok|bad] [unchanged=0|1] [leak=0|1]
@@ -196,6 +201,38 @@ static int leak_check(void) {
 #endif
 }
 
+#define IDMAX 4096
+static struct jbl_node *id_doc[IDMAX], *id_patch[IDMAX], *id_seen[IDMAX];
+static int id_ndoc, id_npatch, id_nseen, id_dup, id_par;
+
+static void id_number(struct jbl_node *n, struct jbl_node **tab, int *cnt, int lvl) {
+  if (!n || *cnt >= IDMAX || lvl > 200) return;
+  tab[(*cnt)++] = n;
+  if (n->type == JBV_OBJECT || n->type == JBV_ARRAY) {
+    for (struct jbl_node *c = n->child; c; c = c->next) id_number(c, tab, cnt, lvl + 1);
+  }
+}
+
+static void id_walk(struct jbl_node *n, int lvl, int *first) {
+  if (!n || id_nseen >= IDMAX || lvl > 200) { id_dup = 1; return; }
+  for (int i = 0; i < id_nseen; ++i) if (id_seen[i] == n) id_dup = 1;
+  id_seen[id_nseen++] = n;
+  int k = -1;
+  for (int i = 0; i < id_ndoc && k < 0; ++i) if (id_doc[i] == n) k = i;
+  if (k >= 0) printf("%sd%d", *first ? "" : ",", k);
+  else {
+    for (int i = 0; i < id_npatch && k < 0; ++i) if (id_patch[i] == n) k = i;
+    if (k >= 0) printf("%sp%d", *first ? "" : ",", k); else printf("%sn", *first ? "" : ",");
+  }
+  *first = 0;
+  if (n->type == JBV_OBJECT || n->type == JBV_ARRAY) {
+    for (struct jbl_node *c = n->child; c && !id_dup; c = c->next) {
+      if (c->parent != n) id_par = 1;
+      id_walk(c, lvl + 1, first);
+    }
+  }
+}
+
 int main(void) {
   static char line[1 << 20];
   char *tv[8];
@@ -262,6 +299,33 @@ int main(void) {
         jbl_destroy(&jbl);
       }
 pdone:
+      iwpool_destroy(pool);
+      free(doc); free(pt);
+    } else if (!strcmp(tv[0], "idpatch") && n == 4) {
+      const char *mode = tv[1];
+      uint8_t *doc, *pt;
+      unhex0(tv[2], &doc); unhex0(tv[3], &pt);
+      struct iwpool *pool = iwpool_create(4096);
+      struct jbl_node *root = 0, *pn = 0;
+      iwrc rc = jbn_from_json((char*) doc, &root, pool);
+      if (rc) { printf("docparse=%s\n", rcname(rc)); goto idone; }
+      rc = jbn_from_json((char*) pt, &pn, pool);
+      if (rc) { printf("patchparse=%s\n", rcname(rc)); goto idone; }
+      id_ndoc = id_npatch = id_nseen = id_dup = id_par = 0;
+      id_number(root, id_doc, &id_ndoc, 0);
+      id_number(pn, id_patch, &id_npatch, 0);
+      if (mode[1] == 'n') {
+        struct jbl_patch *p = 0;
+        int cnt = build_patch(pn, &p, pool);
+        if (cnt < 0) { printf("rc=%s\n", cnt == -2 ? "badop" : "pinvalid"); goto idone; }
+        rc = jbn_patch(root, p, cnt, pool);
+      } else {
+        rc = jbn_patch_auto(root, pn, pool);
+      }
+      printf("rc=%s own=", rcname(rc));
+      { int first = 1; id_walk(root, 0, &first); }
+      printf(" dup=%d par=%s\n", id_dup, id_par ? "bad" : "ok");
+idone:
       iwpool_destroy(pool);
       free(doc); free(pt);
     } else if (!strcmp(tv[0], "merge") && n == 4) {
